@@ -59,8 +59,9 @@ def run(tier):
     scs = []
     for k, a in enumerate(chosen):
         scs.append(dict(sid="add[%s|ref=%s|dangling=%d|helpers=%s]" % (
-            ",".join("%s:%s" % (o["model"], o["req"]) for o in a), refs[k % len(refs)], int(k % 7 == 3), helpers[k % len(helpers)]),
-            adds=a, refs=refs[k % len(refs)], dangling=(k % 7 == 3), helpers=helpers[k % len(helpers)],
+            ",".join("%s:%s" % (o["model"], o["req"]) for o in a), refs[k % len(refs)], (1 if k % 7 == 3 else (2 if k % 7 == 5 and refs[k % len(refs)] != "none" else 0)), helpers[k % len(helpers)]),
+            adds=a, refs=refs[k % len(refs)], dangling=(1 if k % 7 == 3 else (2 if k % 7 == 5 and refs[k % len(refs)] != "none" else 0)),
+            helpers=helpers[k % len(helpers)],
             reset_after=(k % 3 == 0)))
     for i, sc in enumerate(scs):
         sc["tid"] = i + 1
